@@ -114,19 +114,43 @@ def window_cases(draw):
         nd["order_by"] = order_by
         if reverse:
             nd["reverse"] = reverse
+    nodes = [{"op": "table", "name": "t1"}, nd]
+    root = 1
+    if order_by and draw(st.sampled_from(range(10))) < 3:
+        # the leading order column is computed by the directly preceding plain extend (new column or overwrite):
+        # SQL-level extend merging must not let the window read the stale/unknown column
+        target = pick(["oc", "u"])
+        pre = {"op": "extend", "src": 0, "ops": [[target, ["call", "-", [["lit", 10], ["col", "u"]]]]]}
+        used = {a[1] for _, e in ops for a in e[2] if a[0] == "col"}
+        if target not in used:
+            nd["src"] = 1
+            nd["order_by"] = [target] + [c for c in order_by if c != target]
+            if draw(st.booleans()):
+                nd["reverse"] = sorted(set(nd.get("reverse") or []) | {target})
+            nodes = [{"op": "table", "name": "t1"}, pre, nd]
+            root = 2
     return {
         "tables": {"t1": {"cols": cols, "rows": rows, "keys": [["id"]]}},
-        "nodes": [{"op": "table", "name": "t1"}, nd],
-        "root": 1,
+        "nodes": nodes,
+        "root": root,
         "expr_mode": pick(["text", "text", "object"]),
     }
 
 
 def reference(case):
     t = case["tables"]["t1"]
-    nd = case["nodes"][1]
+    nd = case["nodes"][case["root"]]
     cols = [e[0] for e in t["cols"]]
     rows = [[cmp.norm_cell(v) for v in r] for r in t["rows"]]
+    if case["root"] == 2:  # preceding plain extend: target = 10 - u
+        target = case["nodes"][1]["ops"][0][0]
+        ui = cols.index("u")
+        if target in cols:
+            for r in rows:
+                r[cols.index(target)] = 10.0 - r[ui]
+        else:
+            cols = cols + [target]
+            rows = [r + [10.0 - r[ui]] for r in rows]
     pb = nd["partition_by"] if isinstance(nd["partition_by"], list) else []
     pidx = [cols.index(c) for c in pb]
     groups = {}
@@ -167,7 +191,7 @@ def match_multiset(expected_rows, got_rows):
 
 def check(case):
     info = {}
-    nd = case["nodes"][1]
+    nd = case["nodes"][case["root"]]
     fns = [e[1] for _, e in nd["ops"]]
     try:
         ops = spec.build(case)
@@ -236,7 +260,7 @@ def replay(check_name, case):
 
 
 def nontrivial(case):
-    nd = case["nodes"][1]
+    nd = case["nodes"][case["root"]]
     t = case["tables"]["t1"]
     cols = [e[0] for e in t["cols"]]
     pb = nd["partition_by"] if isinstance(nd["partition_by"], list) else []
@@ -269,7 +293,7 @@ def run(ctx):
 
     def oracle(case):
         f, info = check(case)
-        nd = case["nodes"][1]
+        nd = case["nodes"][case["root"]]
         fs = ["fn_" + e[1] for _, e in nd["ops"]]
         fs.append("ordered" if nd.get("order_by") else "unordered")
         if nd.get("reverse"):
